@@ -288,7 +288,8 @@ class CalleeSpec:
 class FnSpec:
     def __init__(self, file, qualname, args, prop, mode='int', requires=(), ensures=(), rejects=(),
                  frame=None, loops=None, callees=None, ghosts=None, ignore=(), name=None, check_fits=False,
-                 allow_raise=(), hints=None, pre_hints=(), slice=None, live_in=None, post_hints=(), inline=()):
+                 allow_raise=(), hints=None, pre_hints=(), slice=None, live_in=None, post_hints=(), inline=(),
+                 name_values=()):
         self.file, self.qualname, self.args, self.prop, self.mode = file, qualname, args, prop, mode
         self.requires, self.ensures, self.rejects = list(requires), list(ensures), list(rejects)
         self.frame = frame            # list of array arg names that may be written (None = no frame check)
@@ -305,6 +306,7 @@ class FnSpec:
         self.slice = slice
         self.live_in = live_in
         self.inline = list(inline)
+        self.name_values = set(name_values)
 
 
 # --------------------------------------------------------------------------------------------------
@@ -1041,7 +1043,7 @@ class Engine:
 
     # ---------------- calls
     def ev_Call(self, n, st):
-        if isinstance(n.func, ast.Name) and n.func.id in ('forall', 'exists', 'implies', 'old') \
+        if isinstance(n.func, ast.Name) and n.func.id in ('forall', 'exists', 'implies', 'old', 'iter_old') \
                 and n.func.id not in st.env:
             if not self.specmode:
                 raise Unsupported('contract-language function in program code')
@@ -1059,8 +1061,8 @@ class Engine:
                 b = self.truth(self.ev(n.args[1], st))
                 b = z3.BoolVal(b) if isinstance(b, bool) else b
                 return SV(z3.Implies(a, b), 'bool')
-            if nm == 'old':
-                o = st.env.get('__old__')
+            if nm in ('old', 'iter_old'):
+                o = st.env.get('__old__' if nm == 'old' else '__iter_start__')
                 if o is None:
                     raise ContractError('old() without entry state')
                 sub = St(dict(o.env), o.heap, st.pc)
@@ -1225,49 +1227,37 @@ class Engine:
         return self.contract_call(q, cs, bound, st, n)
 
     def inline_call(self, f, bound, st, n):
-        saved = st.env
+        """execute the callee body on a fork of the caller state; several returning paths are merged into one
+        if-then-else value (only for side-effect-free callees)"""
+        pre_len = len(st.pc)
+        work = st.fork()
         env = dict(f.env)
         env.update(bound)
         env['__mod__'] = f.mod
-        st.env = env
-        outs = self.exec_block(f.node.body, [st])
-        if len(outs) != 1:
-            # merge returns by forking the caller is not supported inside expressions; allow if all but one pruned
-            live = [o for o in outs]
-            if len(live) != 1:
-                # build an if-then-else merge when all are 'ret' with scalar values and identical heaps
-                return self.merge_returns(live, saved, st, n)
-        o = outs[0]
-        if o is not st:
-            st.heap, st.pc, st.trace = o.heap, o.pc, o.trace
-        if o.flow == 'raise':
-            raise Unsupported('raise inside inlined call')
-        val = o.val if o.flow == 'ret' else None
-        st.flow, st.val = None, None
-        st.env = saved
-        return val
-
-    def merge_returns(self, outs, saved_env, st, n):
-        vals = []
+        work.env = env
+        outs = self.exec_block(f.node.body, [work])
         for o in outs:
-            if o.flow != 'ret' and o.flow is not None:
-                raise Unsupported('non-return path in inlined call')
-            if any(not (o.heap[k] is st.heap.get(k) or o.heap[k].eq(st.heap[k])) for k in o.heap if k in st.heap):
+            if o.flow == 'raise':
+                raise Unsupported('raise inside inlined call')
+            if o.flow not in ('ret', None):
+                raise Unsupported('break/continue escaping an inlined call')
+        if len(outs) == 1:
+            o = outs[0]
+            st.heap, st.trace = o.heap, o.trace
+            st.pc[:] = o.pc
+            return o.val if o.flow == 'ret' else None
+        for o in outs:
+            if set(o.heap) != set(st.heap) or any(not (o.heap[k] is st.heap[k] or o.heap[k].eq(st.heap[k])) for k in o.heap):
                 raise Unsupported('inlined call with branching side effects')
-            vals.append(o)
-        # path-condition suffixes beyond the caller's pc are the branch guards
-        base = len(st.pc)
         res = None
-        for o in reversed(vals):
-            guard = z3.And(*o.pc[base:]) if len(o.pc) > base else z3.BoolVal(True)
+        for o in reversed(outs):
+            guard = z3.And(*o.pc[pre_len:]) if len(o.pc) > pre_len else z3.BoolVal(True)
             v = self.tosv(o.val)
             if res is None:
                 res = v
             else:
                 v, res = self.unify2(v, res)
                 res = SV(z3.If(guard, v.t, res.t), v.ty)
-        st.env = saved_env
-        st.flow, st.val = None, None
         return SV(simp(res.t), res.ty)
 
     def contract_call(self, q, cs, bound, st, n):
@@ -1410,6 +1400,49 @@ class Engine:
             for inst in uf(*args):
                 st.pc.append(inst)
             return
+        if h.startswith('forall_intro '):
+            # prove cond ==> body for fresh constants (definitions of ghost terms unfold on them), then assume the
+            # universally quantified statement (generalisation over fresh constants)
+            using = []
+            if ' using ' in h:
+                h, u = h.split(' using ', 1)
+                using = [x.strip() for x in u.split(';;') if x.strip()]
+            call = ast.parse(h[13:].strip(), mode='eval').body
+            if not (isinstance(call, ast.Call) and getattr(call.func, 'id', '') == 'forall' and len(call.args) == 3):
+                raise ContractError('forall_intro expects forall((vars), cond, body)')
+            names = [x.id for x in (call.args[0].elts if isinstance(call.args[0], ast.Tuple) else [call.args[0]])]
+            sub = St(dict(st.env), st.heap, st.pc)
+            for nm in names:
+                sub.env[nm] = SV(fresh(nm + '_sk', z3.IntSort()), 'int')
+            self.specmode += 1
+            try:
+                cond = self.truth(self.ev(call.args[1], sub))
+                cond = z3.BoolVal(cond) if isinstance(cond, bool) else cond
+            finally:
+                self.specmode -= 1
+            saved = list(st.pc)
+            sub.pc = st.pc
+            st.pc.append(cond)
+            for u in using:
+                self.hint(sub, u, node, kind)           # intermediate steps about the same fresh constants
+            self.specmode += 1
+            try:
+                body = self.truth(self.ev(call.args[2], sub))
+                body = z3.BoolVal(body) if isinstance(body, bool) else body
+            finally:
+                self.specmode -= 1
+            self.oblige(sub, kind, body, node, label=h)
+            # forget everything about the fresh constants; assume the generalised statement
+            st.pc[:] = saved
+            st.pc.append(self.spec_bool(h[13:].strip(), st))
+            return
+        if h.startswith('let '):
+            nm, ex = h[4:].split('=', 1)
+            v = self.tosv(self.spec_eval(ex.strip(), st))
+            c = fresh(nm.strip(), sort_of(v.ty))
+            st.pc.append(c == v.t)
+            st.env[nm.strip()] = SV(c, v.ty)
+            return
         if h.startswith('mention '):
             # evaluate a ghost term so that the instances of its definitions join the path condition
             self.spec_eval(h[8:], st)
@@ -1527,6 +1560,11 @@ class Engine:
 
     def assign(self, t, v, st, node):
         if isinstance(t, ast.Name):
+            if t.id in self.spec.name_values and isinstance(v, SV) and not z3.is_const(v.t) and not self.specmode:
+                # let-binding: name the value so later formulas mention one constant instead of the whole term
+                c = fresh(t.id, sort_of(v.ty))
+                st.pc.append(c == v.t)
+                v = SV(c, v.ty)
             st.env[t.id] = v
         elif isinstance(t, (ast.Tuple, ast.List)):
             if not isinstance(v, (tuple, list)) or len(v) != len(t.elts):
